@@ -303,8 +303,8 @@ pub fn replay_case(out: &mut Out, id: u64, lines: &[String]) {
 /// the thorough tier, a boundary-dense subset otherwise); accepted instances are then driven
 pub fn ctor_suite(out: &mut Out, seed: u64, thorough: bool) {
 	let mut rng = Rng::new(seed);
-	let max = PeriodType::MAX as u64;
-	let all: Vec<u64> = if max == 255 { (0..=255).collect() } else { vec![0, 1, 2, 3, 4, 127, 128, 254, 255, 256, 257, max / 2 - 1, max / 2, max / 2 + 1, max - 2, max - 1, max] };
+	let max = gen_max();
+	let all: Vec<u64> = if max <= 255 { (0..=255).collect() } else { vec![0, 1, 2, 3, 4, 127, 128, 254, 255, 256, 257, max / 2 - 1, max / 2, max / 2 + 1, max - 2, max - 1, max] };
 	let mut id = 0u64;
 	let xs = gen::stream(&mut rng, 24, "walk");
 	let cs = gen::candles(&mut rng, 24, "walk");
@@ -329,7 +329,7 @@ pub fn ctor_suite(out: &mut Out, seed: u64, thorough: bool) {
 			id += 1;
 		}
 	}
-	let pair_vals: Vec<u64> = if thorough && max == 255 { (0..=255).collect() } else { vec![0, 1, 2, 3, 5, 62, 63, 64, 126, 127, 128, 129, 190, 252, 253, 254, 255].into_iter().filter(|v| *v <= max).collect() };
+	let pair_vals: Vec<u64> = if thorough && max <= 255 { (0..=255).collect() } else { vec![0, 1, 2, 3, 5, 62, 63, 64, 126, 127, 128, 129, 190, 252, 253, 254, 255].into_iter().filter(|v| *v <= max).collect() };
 	for name in ["tsi", "upper_rev", "lower_rev", "reversal"] {
 		for &a in &pair_vals {
 			for &b in &pair_vals {
@@ -370,15 +370,33 @@ fn state_every(len: u64, thorough: bool) -> usize {
 
 /// the method suite: `filter` selects method names (empty = all)
 pub fn suite(out: &mut Out, seed: u64, thorough: bool, filter: &[String]) {
+	suite_w(out, seed, thorough, filter, false)
+}
+
+/// `wide`: window lengths beyond 255 (only meaningful in a wide PeriodType build)
+pub fn suite_w(out: &mut Out, seed: u64, thorough: bool, filter: &[String], wide: bool) {
 	let mut rng = Rng::new(seed);
-	let max = PeriodType::MAX as u64;
+	let max = gen_max();
 	let want = |n: &str| filter.is_empty() || filter.iter().any(|f| f == n);
 	let mut id = 0u64;
 	let steps = |rng: &mut Rng, len: u64| -> usize {
 		let base = if thorough { 600 } else { 160 };
+		if wide {
+			return len as usize + 150;
+		}
 		(base + 3 * len as usize + rng.below(40) as usize).min(if thorough { 1500 } else { 900 })
 	};
-	let lens: Vec<u64> = if thorough { (1..max).collect() } else { gen::quick_lengths(&mut rng, max) };
+	let lens: Vec<u64> = if wide {
+		let mut v: Vec<u64> = vec![255, 256, 257, 300, 1000];
+		if thorough {
+			v.extend([2000, 5000]);
+		}
+		v.into_iter().filter(|x| *x < max).collect()
+	} else if thorough {
+		(1..max.min(255)).collect()
+	} else {
+		gen::quick_lengths(&mut rng, max)
+	};
 	let classes_per = if thorough { 3 } else { 2 };
 
 	// single-value methods
